@@ -34,3 +34,23 @@ chk("C10", "exploration",
     "Long-lived problem vs freshly built problem bitwise after every step of random histories (repeated, failing, non-finite updates, repeated queries, heap churn); same sequences under a poisoning allocator in three modes (child processes); thorough adds valgrind memcheck and Miri over a workload that branches on every output element.",
     "Bitwise equality is the property itself (determinism of one computation); the poison allocator initialises memory so memcheck/Miri run with it in pass-through mode.",
     "history-twin monitor + poisoning allocator + memcheck + Miri", "5/C10")
+chk("C04", "exploration",
+    "Every generated fit is run twice, as the real LevMarSolver::fit with a ModelSpy call log and as minimize over a ProblemSpy; logs, reports and final parameters must coincide; then Ok <=> successful termination, evaluation budget, and for successful fits the C01 certificate, C02 identity, objective = 1/2|r|^2 and no-worse-than-start.",
+    "Sequential flavour (parallel call logs are schedule dependent); coefficient optimality inherits the KF-1 triage.",
+    "twin-run monitor (real fit vs spied minimize) + final-state oracles", "5/C04")
+chk("C05", "exploration",
+    "Fits of the certified families (well-separated decays, Gaussian+decay+offset, decay+offset) from starts within 5%: success, noiseless reproduction, SSQ not above the generating parameters, gradient cosine; failing instances are triaged with the dependency's measured SVD error along the trajectory.",
+    "Claim limited to the stated families and ranges; thresholds fixed at design time.",
+    "convergence oracle over generated identifiable families", "5/C05")
+chk("C11", "exploration",
+    "Parallel problems run inside explicit rayon pools (1..16 threads) with seeded delays in the derivative calls; compared with the sequential problem, across pool sizes/schedules (bitwise) and before/after into_sequential; schedule signatures counted from the ModelSpy log; thorough adds ThreadSanitizer (build-std) and Miri with many seeds.",
+    "rayon's scheduler is not controlled; a run in which no Jacobian used two workers is inconclusive (exit 2), not a pass.",
+    "differential monitor over pool sizes and injected delays + TSan + Miri", "5/C11")
+chk("C13", "exploration",
+    "On every successful fit_with_statistics: diagonal >= 0, accessors bit-equal to the diagonal segments, correlation == normalised covariance with unit diagonal and entries in [-1,1]; where H^T H is numerically positive definite: Cov·(H^T H) == sigma^2 I with H built by the oracle in the documented order, and symmetry.",
+    "Value oracles are inconclusive for numerically singular normal matrices; +inf variances (range overflow of the scalar type) are inconclusive.",
+    "certificate monitor Cov·(H^T H)=sigma^2 I + structural invariants on every Ok", "5/C13")
+chk("C14", "exploration",
+    "40 probabilities per successful fit with 1..30 degrees of freedom: length, finiteness, sign, monotonicity in p, documented panic outside (0,1); squared radius against the oracle's own Student-t quantile and the unweighted oracle Jacobian where the normal matrix is positive definite.",
+    "Own t-quantile (self-tested against a committed scipy table); 4e-4 relative tolerance for the library's third-party quantile.",
+    "reference-model monitor with independent Student-t quantile", "5/C14")
